@@ -14,7 +14,7 @@ META = {
         "batching, container kind)."
     ),
     "floors": {
-        "quick": {"evaluations": 50000, "mon.history": 50000, "mon.combine": 2000, "mon.unwritten": 30, "mon.insitu_entries": 2000},
+        "quick": {"evaluations": 50000, "mon.history": 50000, "mon.combine": 2000, "mon.unwritten": 30, "mon.insitu_entries": 2000, "mon.grid": 1000},
         "thorough": {"evaluations": 1000000, "mon.history": 1000000, "mon.combine": 20000, "mon.insitu_entries": 20000},
     },
     "exhaustive": {"quick": True, "thorough": True},
@@ -225,6 +225,49 @@ def check_combine(ctx, DP, h1, h2, merge, retention, comb):
     ctx.sig(("combine", merge, retention, comb, len(pairs), len(set(p[0] for p in pairs))), len(pairs) >= 2)
 
 
+SHAPES = [sh for n in (1, 2, 3) for sh in itertools.product("LD", repeat=n)]
+
+
+def check_grid(ctx, DP, shape, merge, retention, ops):
+    """Cells of a table are independent: a multi-cell write history on a table of any List/Dict shape; after it the
+    WHOLE grid is read back through fresh proxies and every cell is judged against the model of its own history."""
+    case = {"kind": "grid", "shape": "".join(shape), "merge": merge, "retention": retention, "ops": [[list(k), v, t] for k, v, t in ops]}
+    mp = getattr(DP.MergePolicy, merge)
+    rp = getattr(DP.RetentionPolicy, retention)
+    dims = tuple(DP.ListDimension(3) if c == "L" else DP.DictDimension() for c in shape)
+    try:
+        t = DP.Table(dims, mp, rp)
+
+        def cell(key):
+            x = t
+            for k in key:
+                x = x[k]
+            return x
+
+        hist = {}
+        for key, v, tg in ops:
+            key = tuple(key)
+            cell(key).update(DP.Candidate(v, tg))
+            hist.setdefault(key, []).append((v, tg))
+        keys = list(itertools.product(range(3), repeat=len(shape)))
+        nbad = 0
+        for key in keys:
+            ctx.count("mon.grid_cells")
+            for msg in judge(read_entry(cell(key)), hist.get(key, []), merge == "MIN", retention):
+                ctx.viol("C16.grid", dict(case, cell=list(key)), f"cell {list(key)} of a {''.join(shape)} table after writes to {sorted(map(list, hist))}: {msg}")
+                nbad += 1
+                break
+            if nbad:
+                break
+        ctx.count("evaluations")
+        ctx.count("mon.grid")
+        ctx.sig(("grid", "".join(shape), merge, retention, len(hist)), len(hist) >= 2)
+        if len(hist) >= 3:
+            ctx.sample(case)
+    except Exception as exc:  # noqa: BLE001
+        ctx.viol("C16.grid", case, f"exception {type(exc).__name__}: {exc}")
+
+
 def check_proxy_combine(ctx, DP, h1, h2, merge, retention, comb, k):
     """Operands are cells of 1-3 dimensional tables (EntryProxy), one possibly unwritten while a NEIGHBOURING cell
     is written; result compared with the model over the retained candidates; plus Table.entry(value, infos)."""
@@ -392,6 +435,12 @@ def run(ctx, spec):
             h1 = [(v, t or "x") for v, t in h1]
             h2 = [(v, t or "y") for v, t in h2]
         check_combine(ctx, DP, h1, h2, merge, retention, comb)
+    # independence of cells on every List/Dict shape of 1-3 dimensions
+    for k in range(120 if ctx.tier == "quick" else 2500):
+        shape = SHAPES[(k + spec["i"]) % len(SHAPES)]
+        merge, retention = policies[(k // len(SHAPES)) % len(policies)]
+        ops = [(tuple(rng.randrange(3) for _ in shape), rng.choice(VALUES), rng.choice(TAGS)) for _ in range(rng.randint(1, 8))]
+        check_grid(ctx, DP, shape, merge, retention, ops)
     # combine where the operands are table cells (proxies), possibly never written, and Table.entry(value, infos)
     for k in range(150 if ctx.tier == "quick" else 1500):
         merge, retention = rng.choice(policies)
@@ -428,6 +477,8 @@ def replay(ctx, case):
     if case["kind"] == "hist":
         hist = [tuple(tuple(x) if isinstance(x, list) else x for x in h) for h in case["history"]]
         check_history(ctx, DP, hist, tuple(case["batches"]), case["merge"], case["retention"], case["container"])
+    elif case["kind"] == "grid":
+        check_grid(ctx, DP, tuple(case["shape"]), case["merge"], case["retention"], [(tuple(k), v, t) for k, v, t in case["ops"]])
     elif case["kind"] == "proxy_combine":
         check_proxy_combine(ctx, DP, [tuple(h) for h in case["h1"]], [tuple(h) for h in case["h2"]], case["merge"], case["retention"], case["comb"], case["k"])
     elif case["kind"] == "combine":
